@@ -1,6 +1,6 @@
 CONSTANTS
   Driver = "iour"
-  Shapes <- ShapesQuick
+  Shapes <- ShapesCtl
   MaxSteps = 7
   MaxCancel = 2
   MaxFeed = 2
@@ -11,4 +11,4 @@ CONSTANTS
   MutNoDropCancel = FALSE
   MutNoWaker = FALSE
 SPECIFICATION Spec
-INVARIANTS TypeOK ExtInnermost RegSound CancelOnlyVisible BadPersOnlyVisible FailFastPrompt Fused TryTake DropCancels PanicOnlyKnown OwnResult
+INVARIANTS NoPanic
